@@ -293,6 +293,13 @@ class Sched:
             self.sim.event("task", actor.name, str(key))
             self.sim.count("tasks")
             self.point(actor, "task-start")
+            if self.p_dup and self.cfg.get("dup_concurrent") and self.sim.flip(self.p_dup / 2, "dupc"):
+                # the same (pure) task runs on two workers at once, as after work stealing; one result is delivered
+                r = self._dup_concurrent(actor, a)
+                out.append(r)
+                actor.in_task = None
+                self.point(actor, "task-end")
+                continue
             r = dl.execute_task(*a)
             if self.p_dup and self.sim.flip(self.p_dup, "dup"):
                 # re-execution of a (pure) task; the second result is the one delivered
@@ -304,6 +311,52 @@ class Sched:
             actor.in_task = None
             self.point(actor, "task-end")
         return out
+
+    def _dup_concurrent(self, actor, a):
+        import dask.local as dl
+
+        key = str(a[0])
+        aid = len(self.actors)
+        helper = Actor(aid, f"w{aid}d")
+        helper.in_task = key
+        if self.strategy == "pct":
+            helper.prio = 1 + self.sim.choose(1000, "prio")
+        self.actors.append(helper)
+        box = {}
+        self.sim.count("fault.duplicate_concurrent")
+        self.sim.event("dupc", actor.name, helper.name, key)
+
+        def body():
+            helper.sem.acquire()
+            self.idents[threading.get_ident()] = helper
+            try:
+                box["r"] = dl.execute_task(*a)
+            finally:
+                helper.in_task = None
+                helper.state = "done"
+                self.idents.pop(threading.get_ident(), None)
+                if actor.state == "blocked":
+                    actor.state = "runnable"
+                try:
+                    nxt = self._pick(helper, "exit", forced=True)
+                except SimDeadlock:
+                    nxt = actor
+                self.current = nxt
+                nxt.sem.release()
+
+        t = threading.Thread(target=body, daemon=True)
+        helper.thread = t
+        self.threads.append(t)
+        t.start()
+        self.in_flight += 1
+        self.max_in_flight = max(self.max_in_flight, self.in_flight)
+        dl.execute_task(*a)                      # our own execution, interleaved with the helper's
+        if helper.state != "done":
+            actor.state = "blocked"
+            nxt = self._pick(actor, "dup-wait", forced=True)
+            self._switch(actor, nxt, "dup-wait")
+        self.in_flight -= 1
+        return box["r"]
 
     # -- completion queue --------------------------------------------------------------
     def q_put(self, item):
